@@ -84,7 +84,7 @@ IMPORT_OUTCOMES = (('json', 'returns'), ('no_such_module_for_verif_xyz', 'Import
 
 class C12b(Obligation):
     id = 'C12.b'
-    title = 'compiled.access.load_module restores sys.path on every outcome of __import__'
+    title = 'compiled.access.load_module imports with exactly the given search path and restores sys.path on every outcome of __import__'
     pattern = 'P3 (outcome of __import__ in {returns, ImportError, other Exception})'
     assumptions = (
         'the module global `sys` of jedi.inference.compiled.access is replaced by a stand-in so that the real '
@@ -104,8 +104,17 @@ class C12b(Obligation):
         ctx.force(jaccess.load_module)
         n = ctx.choice('n_entries', 3)
         search = [ctx.str('search%d' % i, maxlen=3) for i in range(n)]
+        during = []
+        real_import = __import__
+
+        def recording_import(dotted_name, *a, **k):
+            during.append(list(fake.path))
+            return real_import(dotted_name, *a, **k)
+        ctx.patch(jaccess, '__import__', recording_import)
         out = ctx.call(jaccess.load_module, None, name, search)
         ctx.check(out.exc is None, 'load_module contains every import failure')
+        ctx.check(len(during) == 1 and len(during[0]) == n and all(ctx.eq(a, b) for a, b in zip(during[0], search)),
+                  'while the import runs, sys.path is EXACTLY the given (filtered) search path - no entry of the host process')
         ctx.check(fake.path is original and original == ['orig-entry'],
                   'sys.path is the same object with the same content afterwards')
         if what == 'returns':
@@ -165,4 +174,48 @@ class C12d(C20b):
     title = 'computing a Script\'s search path never widens the whitelist of directories compiled modules may be imported from'
 
 
-OBLIGATIONS = [C12a, C12b, C12c, C12d]
+from jedi.plugins import pytest as jpytest  # noqa: E402
+from jedi.inference import helpers as jhelpers  # noqa: E402
+
+
+class C12e(Obligation):
+    id = 'C12.e'
+    title = 'pytest_plugins entries read from a conftest are imported statically, one identifier per step: no dotted text ever reaches the module search (where importlib would import the parent package for real)'
+    pattern = 'P1 (the plugin name is an unbounded symbolic string; import_module is a recording stub)'
+    assumptions = (
+        'the string found in pytest_plugins is a symbolic string with at most 3 dots (unbounded components, no NUL); '
+        'name inference and get_str_or_none are stubs delivering it; import_module records its argument',
+    )
+    z3_timeout = 10.0
+
+    def configs(self, tier):
+        return [dict(dots=d) for d in (0, 1, 2, 3)]
+
+    def scenario(self, ctx, cfg):
+        parts = [ctx.str('component%d' % i, maxlen=8, exclude='.\0') for i in range(cfg['dots'] + 1)]
+        fq = parts[0]
+        for p in parts[1:]:
+            fq = fq + '.' + p
+        handed = []
+        state = Obj(import_module=lambda names: handed.append(list(names)) or [])
+        module_context = Obj(inference_state=state)
+        value = Obj(tag='string-value')
+        name = Obj(infer=lambda: [Obj(py__iter__=lambda: [Obj(infer=lambda: [value])])])
+        ctx.patch(jhelpers, 'get_str_or_none', lambda v: fq)
+        ctx.force(jpytest._load_pytest_plugins)
+        out = ctx.call(lambda: list(jpytest._load_pytest_plugins(module_context, name)))
+        ctx.check(out.exc is None, 'never raises')
+        if out.exc is not None:
+            return
+        if len(handed) == 0:
+            ctx.check(fq == '', 'only an empty entry is skipped')
+            return
+        ctx.check(len(handed) == 1, 'one import per entry')
+        names = handed[0]
+        ctx.check(len(names) == len(parts), 'one import step per dotted component')
+        if len(names) == len(parts):
+            ctx.check(ctx.And(*[ctx.eq(a, b) for a, b in zip(names, parts)]),
+                      'every step is one component of the name, none contains a dot')
+
+
+OBLIGATIONS = [C12a, C12b, C12c, C12d, C12e]
